@@ -740,8 +740,15 @@ fn apply_span_edits(src: &str, span_edits: &mut [SpanEdit]) -> String {
     span_edits.sort_by_key(|b| std::cmp::Reverse(b.start_offset));
 
     let mut result = src.to_owned();
+    // Offsets are positions in `src`, so an edit that overlaps one we
+    // have already applied no longer describes `result`. Skip it.
+    let mut applied_from = src.len();
     for edit in span_edits.iter() {
+        if edit.end_offset > applied_from {
+            continue;
+        }
         result.replace_range(edit.start_offset..edit.end_offset, &edit.replacement);
+        applied_from = edit.start_offset;
     }
 
     result
